@@ -145,4 +145,72 @@ theorem tr_reserve (v : Nat) (b : Buf) (hb : BInv v b) (L : Ledger) (hl : LiveIn
     obtain ⟨rfl, rfl, rfl, rfl⟩ := hb
     by_cases h1 : n ≤ 0 <;> tr_simp [Gen.reserve, Buf.reserve]
 
+/-- `prepend(data, size)` with `data` outside the object: head-room / shift in place / reallocate -/
+theorem tr_prepend (v : Nat) (b : Buf) (hb : BInv v b) (L : Ledger) (hl : LiveIn b L) (hbd : Bounded L)
+    (data : List Byte) (lo : Bool) :
+    (Gen.prepend v (objOf b) (argPtr lo) data.length (heapOf b L data)).map out = (b.prepend data 0 L).map outB := by
+  obtain ⟨st, s, e, cap⟩ := b
+  cases st with
+  | own id m =>
+    own_setup hb hl hbd
+    by_cases h1 : data.length ≤ s
+    · cases lo <;> tr_simp [Gen.prepend, Buf.prepend, argPtr]
+    · by_cases h2 : data.length + (e - s) ≤ cap
+      · cases lo <;> tr_simp [Gen.prepend, Buf.prepend, argPtr]
+      · cases lo <;> tr_simp [Gen.prepend, Buf.prepend, argPtr]
+  | att m =>
+    simp only [BInv] at hb
+    obtain ⟨rfl, hse, hem⟩ := hb
+    cases lo <;> tr_simp [Gen.prepend, Buf.prepend, argPtr]
+  | dflt c =>
+    simp only [BInv] at hb
+    obtain ⟨rfl, rfl, rfl, rfl⟩ := hb
+    cases lo <;> tr_simp [Gen.prepend, Buf.prepend, argPtr]
+
+
+/-- `assign(data, size)` with `data` outside the object (Model.lean releases the old block before it allocates, Buffer.hpp
+    after it copied: the same result) -/
+theorem tr_assign (v : Nat) (b : Buf) (hb : BInv v b) (L : Ledger) (hl : LiveIn b L) (hbd : Bounded L)
+    (data : List Byte) (lo : Bool) :
+    (Gen.assign v (objOf b) (argPtr lo) data.length (heapOf b L data)).map out = (b.assign data 0 L).map outB := by
+  obtain ⟨st, s, e, cap⟩ := b
+  cases st with
+  | own id m =>
+    own_setup hb hl hbd
+    by_cases h1 : data.length > cap <;> tr_simp [Gen.assign, Buf.assign, argPtr]
+  | att m =>
+    simp only [BInv] at hb
+    obtain ⟨rfl, hse, hem⟩ := hb
+    by_cases h1 : data.length > 0 <;> tr_simp [Gen.assign, Buf.assign, argPtr]
+  | dflt c =>
+    simp only [BInv] at hb
+    obtain ⟨rfl, rfl, rfl, rfl⟩ := hb
+    by_cases h1 : data.length > 0 <;> tr_simp [Gen.assign, Buf.assign, argPtr]
+
+/-- `operator=(const Buffer& other)`, `other` another object with exposed bytes `data` -/
+theorem tr_assignBuf (v w : Nat) (b : Buf) (hb : BInv v b) (L : Ledger) (hl : LiveIn b L) (hbd : Bounded L)
+    (data : List Byte) (lo : Bool) (ob : Ptr) (oc : Nat) :
+    (Gen.assignBuf v (objOf b) w (argObj lo data ob oc) (heapOf b L data)).map out = (b.assign data 0 L).map outB := by
+  obtain ⟨st, s, e, cap⟩ := b
+  cases st with
+  | own id m =>
+    own_setup hb hl hbd
+    by_cases h1 : data.length > cap <;> tr_simp [Gen.assignBuf, Buf.assign, argObj]
+  | att m =>
+    simp only [BInv] at hb
+    obtain ⟨rfl, hse, hem⟩ := hb
+    by_cases h1 : data.length > 0 <;> tr_simp [Gen.assignBuf, Buf.assign, argObj]
+  | dflt c =>
+    simp only [BInv] at hb
+    obtain ⟨rfl, rfl, rfl, rfl⟩ := hb
+    by_cases h1 : data.length > 0 <;> tr_simp [Gen.assignBuf, Buf.assign, argObj]
+
+/-- `swap`: the two objects exchange their fields; a default Buffer is re-pointed at its own `_capacity` -/
+theorem tr_swap (v w : Nat) (a b : Buf) (ha : BInv v a) (hb : BInv w b) (h : Heap) :
+    Gen.swap v (objOf a) w (objOf b) h = some ((objOf (b.rehome v w), objOf (a.rehome w v)), h) := by
+  obtain ⟨sa, s1, e1, c1⟩ := a
+  obtain ⟨sb, s2, e2, c2⟩ := b
+  cases sa <;> cases sb <;> simp only [BInv] at ha hb <;>
+    simp [Gen.swap, objOf, Buf.rehome, bind, pure, branch, val, peq, cellPtr, nullPtr, *]
+
 end Nstd.Buffer
